@@ -697,6 +697,19 @@ func (g *encGen) recordProtected() interface{} {
 	return &record{A: g.canary(g.treatFor("secret", true), "*record(protected).A"), B: g.canary(g.treatFor("sensitive", true), "*record(protected).B"), C: g.canary(g.treatFor("", false), "*record(protected).C")}
 }
 
+// encLockable is a payload that is a sync.Locker (it guards itself for its producer); every
+// Lock / Unlock leaves a trace in an exported field, so a filter that takes the payload's
+// lock has visibly touched the value it was given.
+type encLockable struct {
+	Locks   int
+	Unlocks int
+	Secret  string `class:"secret"`
+	Pub     string `class:"public"`
+}
+
+func (p *encLockable) Lock()   { p.Locks++ }
+func (p *encLockable) Unlock() { p.Unlocks++ }
+
 // payload builds one top-level payload; kind names the top-level shape.
 func (g *encGen) payload(kind int, depth int) (interface{}, string) {
 	switch kind {
@@ -739,6 +752,8 @@ func (g *encGen) payload(kind int, depth int) (interface{}, string) {
 	case 18:
 		t := g.tagMap("ptagmap")
 		return &t, "*taggable-map"
+	case 22:
+		return &encLockable{Secret: g.canary(g.treatFor("secret", true), "*lockable.Secret"), Pub: g.canary("keep", "*lockable.Pub")}, "*struct(sync.Locker)"
 	case 20:
 		return g.recordPublic(), "*struct(record,public)"
 	case 21:
@@ -1125,7 +1140,7 @@ func runEncrypt(rc *RunCtx, prop string) {
 			d := &drawRec{tape: tp}
 			fill := []int{15, 40, 80}[tp.Choose(3, "fill")]
 			g := &encGen{d: d, exp: map[string]*leafExp{}, overrides: overrides, fill: fill, withIgnored: withIgnored}
-			kind := tp.Choose(22, "kind")
+			kind := tp.Choose(23, "kind")
 			depth := tp.Choose(3, "depth")
 			var payload interface{}
 			var top string
